@@ -65,6 +65,12 @@ theorem norm_flat_inf {α : Type} [Ring α] [LinearOrder α] [IsStrictOrderedRin
 theorem norm_flat_2 (t : PTree ℝ) :
     norm2 (fun x => |x|) Real.sqrt t = Real.sqrt ((t.flatten.map fun x => x * x).sum) := norm2_flat t
 
+/-- **where_flat**: `where(c, x, y)` on three trees is `np.where` on the concatenated flat arrays whenever it succeeds -/
+theorem where_flat {α : Type} (c : PTree Bool) (x y : PTree α) (r : PTree α)
+    (h : whereOp (.tree c) (.tree x) (.tree y) = .ok r) :
+    r.flatten = List.zipWith (fun (b : Bool) (q : α × α) => if b then q.1 else q.2) c.flatten
+      (List.zipWith (fun a b => (a, b)) x.flatten y.flatten) := whereOp_flat c x y r h
+
 /-! ### sequential maps -/
 
 /-- scanning over axis 0 of `moveaxis(a, i, 0)` visits the slices of `a` along axis `i` -/
